@@ -178,6 +178,10 @@ def gen_run(rng, cid):
         "(do (defmacro twice [e] `(+ ,e ,e)) (list (twice 4) (in-scope \"top\" ~a) CS))",
         "(let ([a 3]) (list a top.a (count top.clk) INDEX TS))",
     ])
+    if rng.random() < 0.25:
+        # the program text was evaluated before, while a user macro of that name existed: run must not remember that
+        hist = hist + ['(defmacro bump [x] `(+ ,x 1))', '(bump 5)']
+        prog = '(bump 5)'
     a = {'id': cid, 'kind': 'run-after', 'cmds': base + [['evalstr', '111', h] for h in hist] + [['runstr', '111', prog]],
          'pos': 2 + len(hist), 'prog': prog, 'hist': hist}
     b = {'id': cid, 'kind': 'run-fresh', 'cmds': base + [['runstr', '111', prog]], 'pos': 2, 'prog': prog, 'hist': []}
